@@ -164,3 +164,31 @@ class _(Contract):
         shrinks = _is_minimisation(ex, a.graph)
         return {"sound": L.forall(2, lambda r, x: L.Implies(res.has(r, x), L.exists(1, lambda v: L.And(S.has(v, x), shrinks(v, r))))),
                 "complete": L.forall(2, lambda v, x: L.Implies(S.has(v, x), L.exists(1, lambda r: L.And(res.has(r, x), shrinks(v, r)))))}
+
+
+@contract(f"{API}.is_counterfactual_factor_form", props=["C19"])
+class _(Contract):
+    """Definition 3.4 (ctf-factor form): every variable of the event carries, as subscripts, interventions on all parents of its base
+    variable and none on the base variable itself; a variable without subscripts must have no parents.  NetworkXError for a base
+    variable outside the graph."""
+    params = {"event": "nodeset", "graph": "graph"}
+    allowed_raises = ("NetworkXError",)
+    raises_exact = False
+
+    def pre(self, ex, a):
+        L = ex.L
+        return [("no-interventions-in-event", L.forall(1, lambda v: L.Implies(a.event.has(v), L.Not(L.is_intervention(v)))))]
+
+    def raises(self, ex, a):
+        L, g = ex.L, a.graph
+        b, _, _ = L.var_algebra()
+        return {"NetworkXError": L.exists(1, lambda v: L.And(a.event.has(v), L.Not(g.N(b(v)))))}
+
+    def spec(self, ex, a):
+        L, g = ex.L, a.graph
+        b, ivs, _ = L.var_algebra()
+        on = lambda v, x: L.exists(1, lambda i: L.And(ivs(v, i), b(i) == b(x)))     # v has a subscript on the variable x
+        ok = lambda v: z3.If(L.is_cf(v),
+                             L.And(L.Not(on(v, v)), L.forall(1, lambda p: L.Implies(g.D(p, b(v)), on(v, p)))),
+                             L.Not(L.exists(1, lambda p: g.D(p, b(v)))))
+        return VBool(L.forall(1, lambda v: L.Implies(a.event.has(v), ok(v))))
